@@ -30,6 +30,9 @@ type DTable struct {
 	Rows    []DTRow
 	Err     string
 	pure    map[string]bool
+	// FallResult, when non-empty, is the result recorded when the interpreted statements fall
+	// through (used for loop bodies: "continue").
+	FallResult string
 }
 
 type DTRow struct {
@@ -40,7 +43,12 @@ type DTRow struct {
 // BuildDTable interprets the function. extraPure lists method names that are pure accessors
 // (treated as part of operand paths).
 func BuildDTable(u *FuncUnit, body *ast.BlockStmt) *DTable {
-	d := &DTable{u: u, info: u.Info(), aliases: map[*types.Var]ast.Expr{}, atoms: map[string]*dtAtom{}}
+	return BuildDTableFall(u, body, "")
+}
+
+// BuildDTableFall is BuildDTable for a statement list that may fall through (a loop body).
+func BuildDTableFall(u *FuncUnit, body *ast.BlockStmt, fall string) *DTable {
+	d := &DTable{u: u, info: u.Info(), aliases: map[*types.Var]ast.Expr{}, atoms: map[string]*dtAtom{}, FallResult: fall}
 	d.collectAliases(body)
 	d.collectAtoms(body)
 	sort.Slice(d.Atoms, func(i, j int) bool { return d.Atoms[i].Key < d.Atoms[j].Key })
@@ -56,6 +64,9 @@ func BuildDTable(u *FuncUnit, body *ast.BlockStmt) *DTable {
 		}
 		if i == len(d.Atoms) {
 			res, ok := d.exec(body.List, assign)
+			if !ok && d.Err == "" && d.FallResult != "" {
+				res, ok = d.FallResult, true
+			}
 			if !ok {
 				if d.Err == "" {
 					d.Err = "function may fall off its end or uses an unsupported statement"
@@ -104,7 +115,7 @@ func (d *DTable) collectAliases(body *ast.BlockStmt) {
 					continue
 				}
 				count[v]++
-				if len(as.Lhs) == len(as.Rhs) {
+				if len(as.Lhs) == len(as.Rhs) && as.Tok == token.DEFINE {
 					rhs[v] = as.Rhs[i]
 				} else {
 					count[v] += 10
